@@ -70,6 +70,12 @@ class PipelineUnit(WeaverUnit):
                     if not rfa_units.adaptive_windows_exact(chk)[2]:
                         continue
                 cases.append(c)
+        # a burst of huge averages followed by small non-dyadic ones, every run (every later interval is matched to its own average
+        # with local accuracy — running totals must not leak into it)
+        for s in ("pc", "linfixed", "expfixed", "function"):
+            m = rng.randint(5, 9)
+            c = prog(gens.sorted_x(rng, m), gens.values(rng, m, "burst"), s, rng.choice([2, 4, 8]), rng.choice([None, True]), rng.choice(["trapezoid", "rectangle"]), m_for_mk=m)
+            cases.append(c)
         # the shortest series the property names — two points, one interval — for every strategy and both target rules, without the
         # append_one_sample step (with it the series has two intervals)
         for s in rfa_units.STRATS:
@@ -77,6 +83,7 @@ class PipelineUnit(WeaverUnit):
                 continue
             for rt in ("trapezoid", "rectangle"):
                 c = prog(gens.sorted_x(rng, 2), gens.values(rng, 2, "int"), s, rng.choice([3, 4, 8]), None, rt, m_for_mk=2)
+                c["via_2d"] = rt == "rectangle"        # (half of them through Weaver.from_2d_array: a (2, 2) table of (x, y) rows)
                 if c["script"][-2]["strategy"] in ("linadapt", "expadapt"):
                     chk = dict(c["script"][-2]); chk["x"], chk["y"] = c["x"], c["y"]
                     if not rfa_units.adaptive_windows_exact(chk)[2]:
@@ -94,6 +101,9 @@ class PipelineUnit(WeaverUnit):
                 if not rfa_units.adaptive_windows_exact(chk)[2]:
                     continue
             cases.append(c)
+        for c_ in cases:
+            if "via_2d" not in c_ and rng.random() < 0.15:
+                c_["via_2d"] = True       # the series handed in as one (N, 2) table through Weaver.from_2d_array
         # every bundled dataset (model comparison is skipped for them in the quick tier: long series)
         for name, bx, by in bundled():
             s = rng.choice(["expadapt", "linfixed", "pc", "expfixed", "linadapt"])
